@@ -131,6 +131,20 @@ Section C03.
          Raised x).
   Proof. exact (inplace_failure_exposes_partial re_match e base_of partial_of). Qed.
 
+  (* ... and a whole history of calls through recognised bodies is the history of the corresponding coarse
+     operations, so C03_history applies to it verbatim *)
+  Theorem C03_calls_refine_ops : forall c ks a,
+      Forall (fun k => call_shape_safe k = true /\ call_wf k) ks ->
+      run_calls re_match e c a ks = run_ops re_match e c a (map call_mop ks).
+  Proof. exact (calls_refine_ops re_match e). Qed.
+
+  Theorem C03_call_history_valid : forall c ks a,
+      hook_wf c = true -> struct_ok re_match e c a = true ->
+      Forall (fun k => call_shape_safe k = true /\ call_wf k) ks ->
+      hist_safe re_match e c a (map call_mop ks) = true ->
+      struct_ok re_match e c (run_calls re_match e c a ks) = true.
+  Proof. exact (call_history_valid re_match e). Qed.
+
   Theorem C03_stale_inplace_inert : forall c n m a hv,
       w_inst (fst (wexec re_match e base_of partial_of c n (wstart a hv false) [SGuard; SApplySelf m])) = a.
   Proof. exact (stale_inplace_inert re_match e base_of partial_of). Qed.
@@ -188,6 +202,8 @@ Print Assumptions C03_body_sound.
 Print Assumptions C03_body_step_good.
 Print Assumptions C03_inplace_failure_exposes_partial.
 Print Assumptions C03_stale_inplace_inert.
+Print Assumptions C03_calls_refine_ops.
+Print Assumptions C03_call_history_valid.
 Print Assumptions strict_table_status.
 
 Eval vm_compute in (map fst (unsafe_entries current_strict_tables)).
@@ -246,4 +262,28 @@ Proof.
   split; [vm_compute; reflexivity|]. split; [|split; [|split; vm_compute; reflexivity]].
   - intros m v nv H. unfold ex_base in H. inversion H. destruct v; reflexivity.
   - intros m v _. reflexivity.
+Qed.
+
+(* non-vacuity of the call-history theorems: x.a.append(7) then x.a.append('x') through the translated body of
+   _ListStruct.append: both calls satisfy the side conditions, the history is safe, the first call goes through and
+   the second raises leaving the instance as it was. *)
+Definition ex_call (x : pyval) (hv : pyval) : wcall :=
+  {| wc_field := s2p "a"; wc_kind := 0%N; wc_meth := s2p "append"; wc_body := ex_append_body;
+     wc_base := ex_base x; wc_partial := ex_partial; wc_handle := hv; wc_live := true |}.
+Definition ex_calls : list wcall :=
+  [ ex_call (PNum (NInt 7)) (PList [PNum (NInt 1)]);
+    ex_call (PStr (s2p "x")) (PList [PNum (NInt 1); PNum (NInt 7)]) ].
+
+Example C03_calls_nonvacuous :
+  Forall (fun k => call_shape_safe k = true /\ call_wf k) ex_calls /\
+  hist_safe no_re [] (w_class w_hook) w_state (map call_mop ex_calls) = true /\
+  alist_get (run_calls no_re [] (w_class w_hook) w_state ex_calls) (s2p "a")
+    = Some (PList [PNum (NInt 1); PNum (NInt 7)]).
+Proof.
+  assert (Hwf : forall x hv, is_none_val hv = false -> call_wf (ex_call x hv)).
+  { intros x hv Hh. split; [exact Hh|]. split.
+    - intros m v nv H. unfold ex_call, wc_base, ex_base in H. inversion H. destruct v; reflexivity.
+    - intros m v _. reflexivity. }
+  split; [|split; vm_compute; reflexivity].
+  repeat constructor; try (vm_compute; reflexivity); apply Hwf; reflexivity.
 Qed.
